@@ -232,6 +232,18 @@ func (p *c17PKI) leafFiles(kind, name string) (tls.Certificate, string, string, 
 
 var c17mark = [4]byte{9, 9, 9, 9}
 
+// c17Mangle, when set, rewrites every reply of the fake servers (used by the C01 "upgarbage" kind);
+// returning nil means: no DNS payload (stream: close; udp: drop; http: status 500).
+var c17Mangle func(q, r []byte) []byte
+
+func c17Reply(q []byte) []byte {
+	r := hx.BuildReply(q, false, 0, c17mark, 60)
+	if m := c17Mangle; m != nil && r != nil {
+		return m(q, r)
+	}
+	return r
+}
+
 var nullLogger = log.New(io.Discard, "", 0)
 
 type c17Seen struct {
@@ -272,7 +284,7 @@ func c17ServeStream(c io.ReadWriter, seen *c17Seen) {
 			return
 		}
 		seen.noteQuery()
-		r := hx.BuildReply(q, false, 0, c17mark, 60)
+		r := c17Reply(q)
 		if r == nil {
 			return
 		}
@@ -307,7 +319,7 @@ func c17ServeUDP(pc net.PacketConn, seen *c17Seen) {
 		}
 		seen.noteConn()
 		seen.noteQuery()
-		if r := hx.BuildReply(append([]byte(nil), buf[:n]...), false, 0, c17mark, 60); r != nil {
+		if r := c17Reply(append([]byte(nil), buf[:n]...)); r != nil {
 			pc.WriteTo(r, addr)
 		}
 	}
@@ -324,9 +336,9 @@ func (h c17DoH) ServeHTTP(w http.ResponseWriter, r *http.Request) {
 		q, _ = io.ReadAll(io.LimitReader(r.Body, 65535))
 	}
 	h.seen.noteQuery()
-	resp := hx.BuildReply(q, false, 0, c17mark, 60)
+	resp := c17Reply(q)
 	if resp == nil {
-		w.WriteHeader(400)
+		w.WriteHeader(500)
 		return
 	}
 	w.Header().Set("Content-Type", "application/dns-message")
